@@ -178,7 +178,7 @@ Definition goto (t : thr) (k : nat) : thr := Thr (t_st t) (t_fn t) k (t_ret t) (
 Definition set_it (t : thr) (it : list N) : thr := Thr (t_st t) (t_fn t) (t_pc t) (t_ret t) it.
 Definition finish (t : thr) : thr := Thr TFinished (t_fn t) (t_pc t) (t_ret t) (t_it t).
 Definition start (t : thr) : thr :=
-  match t_st t with TNotStarted => Thr TRunning (t_fn t) (t_pc t) (t_ret t) (t_it t) | _ => t end.
+  Thr (match t_st t with TNotStarted => TRunning | st => st end) (t_fn t) (t_pc t) (t_ret t) (t_it t).
 
 Fixpoint remove_first (x : N) (l : list N) : list N :=
   match l with [] => [] | y :: r => if N.eqb x y then r else y :: remove_first x r end.
